@@ -152,6 +152,9 @@ fn detect_hook() -> Option<Platform> {
 pub fn install_hooks() {
     blake3::verif_hooks::set_detect_hook(Some(detect_hook));
     blake3::verif_hooks::set_kernel_hook(Some(kernel_hook));
+    // the return of a kernel is a scheduling point too: what the caller does with the output
+    // (copying it out of a buffer, say) is a separate step that another thread can get in front of
+    blake3::verif_hooks::set_kernel_exit_hook(Some(kernel_hook));
     blake3::verif_hooks::set_join_hook(Some(join_hook));
     // every atomic / lock / once-cell operation in the crate's own source (instrumented copy)
     vshim::set_hooks(crate::yield_point, blocked_point);
@@ -348,7 +351,7 @@ pub fn c08(args: &Args, rep: &mut Report) {
             let a2 = assign.clone();
             // small trees without a bound (all interleavings), larger ones bounded
             let pb = if k <= 3 && set.len() == 1 && s.len <= 4 * 1024 * degree(&s.lname) { None } else if set.len() >= 3 { Some(2) } else { Some(bound) };
-            let n = explore(pb, 20_000, move || {
+            let body = move || {
                 ctl(|c| {
                     c.assign = a2.clone();
                     c.reset_run();
@@ -361,7 +364,21 @@ pub fn c08(args: &Args, rep: &mut Report) {
                     }
                 });
                 w.join().expect("worker");
-            });
+            };
+            // unbounded for the smallest models; otherwise iterative context bounding (bound 1 always,
+            // the target bound for models that are small at bound 1 - all models in the thorough tier)
+            let n = match pb {
+                // bounds 1, 2 and 3 always; without a bound if the model is small at bound 3 (always in the thorough tier)
+                None => {
+                    let body = std::sync::Arc::new(body);
+                    let (b1, b2, b3, b4) = (body.clone(), body.clone(), body.clone(), body.clone());
+                    let n1 = explore(Some(1), 20_000, move || b1());
+                    let n2 = explore(Some(2), 20_000, move || b2());
+                    let n3 = explore(Some(3), 20_000, move || b3());
+                    n1 + n2 + n3 + if t || n3 <= 150 { explore(None, 20_000, move || b4()) } else { 0 }
+                }
+                Some(b) => crate::explore_iterative(b, if t { None } else { Some(60) }, 20_000, body),
+            };
             rep.add("evaluations", n);
             rep.add("states", n);
             rep.add("transitions", n);
@@ -439,6 +456,15 @@ fn rayon_sampling(args: &Args, rep: &mut Report) {
 
 pub const NSEQ: usize = 8;
 
+/// Thorough tier: the two long sequences use their full sizes; quick: about half (the number of
+/// schedules grows with the square of the number of kernel calls).
+pub static HEAVY: std::sync::atomic::AtomicBool = std::sync::atomic::AtomicBool::new(false);
+
+fn sizes() -> (usize, usize, usize, usize) {
+    // (seq 0 reader part, seq 0 total, seq 1 reader end, seq 1 clone update)
+    if HEAVY.load(Ordering::SeqCst) { (3000, 9000, 5100, 9000) } else { (1500, 4000, 2200, 3000) }
+}
+
 /// A complete operation sequence on instances private to the caller; returns everything observable.
 pub fn op_sequence(which: usize, data: &[u8]) -> Vec<u8> {
     let mut out = vec![];
@@ -456,6 +482,15 @@ pub fn op_sequence(which: usize, data: &[u8]) -> Vec<u8> {
             k[0] ^= (which % NSEQ) as u8;
             out.extend_from_slice(blake3::keyed_hash(&k, &data[..65]).as_bytes());
             out.extend_from_slice(blake3::keyed_hash(&k, &data[1..3]).as_bytes());
+            // several short reads inside one output block, then across its end
+            let mut kh = blake3::Hasher::new_keyed(&k);
+            kh.update(&data[..40]);
+            let mut rd = kh.finalize_xof();
+            let mut b = [0u8; 70];
+            rd.fill(&mut b[..16]);
+            rd.fill(&mut b[16..32]);
+            rd.fill(&mut b[32..70]);
+            out.extend_from_slice(&b);
         }
         4 => {
             out.extend_from_slice(blake3::hash(&data[..1025]).as_bytes());
@@ -469,22 +504,24 @@ pub fn op_sequence(which: usize, data: &[u8]) -> Vec<u8> {
         }
         0 => {
             // the reader / Write adapters too: their staging buffer must be private to the call
+            let (a, b, _, _) = sizes();
             let mut h = blake3::Hasher::new();
-            h.update_reader(std::io::Cursor::new(&data[..3000])).expect("cursor");
-            std::io::copy(&mut std::io::Cursor::new(&data[3000..9000]), &mut h).expect("copy");
+            h.update_reader(std::io::Cursor::new(&data[..a])).expect("cursor");
+            std::io::copy(&mut std::io::Cursor::new(&data[a..b]), &mut h).expect("copy");
             out.extend_from_slice(h.finalize().as_bytes());
             out.extend_from_slice(&h.count().to_le_bytes());
         }
         1 => {
+            let (_, _, e, cu) = sizes();
             let mut h = blake3::Hasher::new_keyed(&key());
-            h.update_reader(&data[100..5100]).expect("slice reader");
+            h.update_reader(&data[100..e]).expect("slice reader");
             let mut rd = h.finalize_xof();
             rd.set_position(64 * (1u64 << 32) - 64);
             let mut b = [0u8; 200];
             rd.fill(&mut b);
             out.extend_from_slice(&b);
             let mut c = h.clone();
-            c.update(&data[..9000]);
+            c.update(&data[..cu]);
             out.extend_from_slice(c.finalize().as_bytes());
         }
         2 => {
@@ -517,17 +554,20 @@ pub fn spec_sequence(which: usize, data: &[u8]) -> Vec<u8> {
             let km2 = b3spec::Mode::keyed(&k);
             out.extend_from_slice(&b3spec::hash32(&km2, &data[..65]));
             out.extend_from_slice(&b3spec::hash32(&km2, &data[1..3]));
+            out.extend_from_slice(&b3spec::xof(&km2, &data[..40], 0, 70));
         }
         4 => out.extend_from_slice(&b3spec::hash32(&hm, &data[..1025])),
         5 => out.extend_from_slice(&b3spec::xof(&km, &data[..100], 0, 100)),
         0 => {
-            out.extend_from_slice(&b3spec::hash32(&hm, &data[..9000]));
-            out.extend_from_slice(&9000u64.to_le_bytes());
+            let (_, b, _, _) = sizes();
+            out.extend_from_slice(&b3spec::hash32(&hm, &data[..b]));
+            out.extend_from_slice(&(b as u64).to_le_bytes());
         }
         1 => {
-            out.extend_from_slice(&b3spec::xof(&km, &data[100..5100], 64 * (1u64 << 32) - 64, 200));
-            let mut cat = data[100..5100].to_vec();
-            cat.extend_from_slice(&data[..9000]);
+            let (_, _, e, cu) = sizes();
+            out.extend_from_slice(&b3spec::xof(&km, &data[100..e], 64 * (1u64 << 32) - 64, 200));
+            let mut cat = data[100..e].to_vec();
+            cat.extend_from_slice(&data[..cu]);
             out.extend_from_slice(&b3spec::hash32(&km, &cat));
         }
         2 => {
@@ -546,6 +586,7 @@ pub fn spec_sequence(which: usize, data: &[u8]) -> Vec<u8> {
 
 pub fn c18(args: &Args, rep: &mut Report) {
     let t = args.thorough();
+    HEAVY.store(t, Ordering::SeqCst);
     let data = std::sync::Arc::new(vcommon::stream_b(args.seed ^ 0x18, 80 * 1024));
     let solo: Vec<Vec<u8>> = (0..NSEQ).map(|w| spec_sequence(w, &data)).collect();
     let lv = levels();
@@ -570,7 +611,7 @@ pub fn c18(args: &Args, rep: &mut Report) {
             }
             let (c2, d2, s2, ln) = (combo.clone(), data.clone(), solo.clone(), lname.clone());
             let bound = if combo.len() == 3 { 2 } else if t { 3 } else { 2 };
-            let n = explore(Some(bound), 50_000, move || {
+            let n = crate::explore_iterative(bound, if t { None } else { Some(110) }, 50_000, move || {
                 let mut hs = vec![];
                 for (slot, &w) in c2.iter().enumerate() {
                     let (d3, s3, ln3, c3) = (d2.clone(), s2.clone(), ln.clone(), c2.clone());
